@@ -52,6 +52,16 @@ pub struct Outcome {
 }
 
 thread_local! {
+    /// set by the trace sink when a key that did not exist before was registered
+    static NEW_KEY: std::cell::Cell<bool> = const { std::cell::Cell::new(false) };
+}
+
+/// true once after a new registry key was observed (used by re-drawing schedulers)
+pub fn take_new_key_flag() -> bool {
+    NEW_KEY.with(|f| f.replace(false))
+}
+
+thread_local! {
     static LAST_PANIC: RefCell<Option<String>> = const { RefCell::new(None) };
     static QUIET: RefCell<bool> = const { RefCell::new(false) };
 }
@@ -168,7 +178,13 @@ pub fn build_modules(mods: &[(ItemPath, grammar::Module)], ptrw: usize, mut opts
     let trace: Rc<RefCell<Vec<Event>>> = Rc::new(RefCell::new(vec![]));
     if opts.trace {
         let t = trace.clone();
-        pyxis::verif::set_sink(Some(Box::new(move |e| t.borrow_mut().push(e))));
+        NEW_KEY.with(|f| f.set(false));
+        pyxis::verif::set_sink(Some(Box::new(move |e| {
+            if let Event::RegistryAdd { replaced: pyxis::verif::Replaced::None, .. } = &e {
+                NEW_KEY.with(|f| f.set(true));
+            }
+            t.borrow_mut().push(e)
+        })));
     }
     if let Some(s) = opts.scheduler.take() {
         pyxis::verif::set_scheduler(Some(s));
